@@ -8,28 +8,62 @@ def _strip(e):
     return norm(e).replace(' ', '')
 
 
+def _names_in(e):
+    return {n.id for n in ast.walk(e) if isinstance(n, ast.Name)}
+
+
+def _rounding_of(e):
+    """the variable name x when e is a rounding of a plain variable: round(x), np.rint(x), np.round(x), int(x + 0.5), int(round(x)), int(np.rint(x)); else None"""
+    if isinstance(e, ast.Call) and len(e.args) >= 1:
+        f = norm(e.func)
+        a = e.args[0]
+        if f in ('round', 'np.rint', 'numpy.rint', 'np.round', 'numpy.round', 'np.around') and isinstance(a, ast.Name):
+            return a.id
+        if f == 'int':
+            if isinstance(a, ast.BinOp) and isinstance(a.op, ast.Add) and isinstance(a.left, ast.Name) and isinstance(a.right, ast.Constant) and a.right.value == 0.5:
+                return a.left.id
+            return _rounding_of(a)
+    return None
+
+
 def tolerant_integer(ctx, rule, rel, qual, floor=1):
-    """TOLERANT-INTEGER: a quantity the function admits as a whole number through a *tolerant* test -- np.isclose(x, round(x)) or np.isclose(x, int(x + 0.5)) --
-    may lie a rounding error below that whole number (23.999999999999943), so it is converted by rounding, never by truncation: every int(...) of x after the test
-    goes through round(x), x + 0.5 or np.rint(x).  The belief stated by the test (x is an integer up to round-off) and a bare int(x) contradict each other."""
+    """TOLERANT-INTEGER: a quantity the function admits as a whole number through a *tolerant* test -- np.isclose(x, round(x)), or the same inequality written out against a
+    rounding of x (possibly held in a name) -- may lie a rounding error below that whole number (23.999999999999943), so it is made an int by rounding, never by
+    truncation: no bare int(x) of that variable follows the test.  The belief stated by the test (x is an integer up to round-off) and a bare int(x) contradict each other."""
     fn = ctx.fn(rel, qual)
-    n = 0
-    for t in walk_no_nested(fn):
-        if not (isinstance(t, ast.Call) and norm(t.func) in ('np.isclose', 'numpy.isclose') and len(t.args) >= 2):
+    nodes = list(walk_no_nested(fn))
+    # names that hold a rounding of a variable: nearest = round(x)
+    holds = {}
+    for s in nodes:
+        if isinstance(s, ast.Assign) and len(s.targets) == 1 and isinstance(s.targets[0], ast.Name):
+            x = _rounding_of(s.value)
+            if x is not None and s.targets[0].id != x:
+                holds[s.targets[0].id] = x
+    tested = {}          # variable -> first tolerant test node
+    for t in nodes:
+        is_close = isinstance(t, ast.Call) and norm(t.func) in ('np.isclose', 'numpy.isclose', 'math.isclose') and len(t.args) >= 2
+        is_cmp = isinstance(t, ast.Compare) and len(t.ops) == 1 and isinstance(t.ops[0], (ast.Lt, ast.LtE, ast.Gt, ast.GtE))
+        if not (is_close or is_cmp):
             continue
-        for x, r in ((t.args[0], t.args[1]), (t.args[1], t.args[0])):
-            xs = _strip(x)
-            rs = _strip(r)
-            if rs not in ('round(%s)' % xs, 'int(%s+0.5)' % xs, 'np.rint(%s)' % xs, 'np.round(%s)' % xs, 'int(round(%s))' % xs):
-                continue
-            # x is admitted as a whole number up to round-off; look at how it is converted afterwards
-            convs = [c for c in walk_no_nested(fn) if isinstance(c, ast.Call) and norm(c.func) == 'int' and len(c.args) == 1 and c.lineno >= t.lineno
-                     and xs in _strip(c.args[0]) and c is not r and not any(c is d for d in ast.walk(t))]
-            n += 1
-            bad = [c for c in convs if _strip(c.args[0]) == xs]
-            ctx.ob(rule, '%s::%s' % (rel, qual), '`%s`, admitted as a whole number by a tolerant test (line %d), is converted by rounding wherever it is made an int (%d conversion(s))' % (norm(x), t.lineno, len(convs)),
-                   bool(convs) and not bad, '; '.join('int(%s) truncates at line %d' % (norm(c.args[0]), c.lineno) for c in bad) or ('no conversion found' if not convs else ''),
-                   node=bad[0] if bad else t, key='tolerant integer %s %s' % (qual, xs))
+        parts = list(t.args[:2]) if is_close else [t.left, t.comparators[0]]
+        roundings = set()
+        for sub in ast.walk(t):
+            x = _rounding_of(sub) if isinstance(sub, ast.Call) else None
+            if x is not None:
+                roundings.add(x)
+            if isinstance(sub, ast.Name) and sub.id in holds:
+                roundings.add(holds[sub.id])
+        for x in roundings:
+            if x in _names_in(t) and (is_close or any(isinstance(n_, ast.BinOp) and isinstance(n_.op, ast.Sub) for n_ in ast.walk(t))):
+                tested.setdefault(x, t)
+    n = 0
+    for x, t in sorted(tested.items()):
+        convs = [c for c in nodes if isinstance(c, ast.Call) and norm(c.func) == 'int' and len(c.args) == 1 and c.lineno >= t.lineno and not any(c is d for d in ast.walk(t))
+                 and (x in _names_in(c.args[0]) or any(nm in holds and holds[nm] == x for nm in _names_in(c.args[0])))]
+        bad = [c for c in convs if isinstance(c.args[0], ast.Name) and c.args[0].id == x]
+        n += 1
+        ctx.ob(rule, '%s::%s' % (rel, qual), '`%s`, admitted as a whole number by a tolerant test (line %d), is made an int by rounding wherever it is converted (%d conversion(s))' % (x, t.lineno, len(convs)),
+               not bad, '; '.join('int(%s) truncates at line %d' % (norm(c.args[0]), c.lineno) for c in bad), node=bad[0] if bad else t, key='tolerant integer %s %s' % (qual, x))
     ctx.floor('%s/%s' % (rule, qual), n, floor)
 
 
